@@ -6,7 +6,8 @@ footprints are proved, hence -- by the generic theorem of Proofs/C19_sched.v -- 
 index-order sequential run.
 
 Correspondence: the generated threads run sequentially and under random interleavings (vm_compute) versus `.py_func` on the
-same inputs, and versus the functional kernels of Gen/Kernels.v.
+same inputs, and versus the functional kernels of Gen/Kernels.v (remove_zerodm included); the two decimators additionally versus the
+COMPILED parallel kernels on the uint16 exact-mean cases of the sweep (all bin sizes, 6 output rows, exact integer division in the model).
 
 Oracle (the property restated in Python, evaluated on the implementation):
   owner-*  : `.py_func` is run with `prange` replaced by a tracing range and every array replaced by a logging proxy; every
@@ -265,18 +266,18 @@ DECIM_2D = ((7, 7), (7, 14), (14, 14), (1, 103), (107, 1), (49, 2), (1, 49))
 DECIM_DT = (("u1", np.uint8), ("i4", np.int32), ("f8", np.float64), ("u2", np.uint16))
 
 
-def decimation_exact_cases(nprng, tier):
+def decimation_exact_cases(nprng, tier, nout=37, dts=DECIM_DT):
     """decimation on integer-valued data whose bin sums are multiples of the bin size: sum and quotient are exact in float64,
-    so there is one right answer for every dtype; integer outputs expose a quotient that is one ulp low (it truncates)"""
+    so there is one right answer for every dtype; integer outputs expose a quotient that is one ulp low (it truncates).
+    nout = 37 output rows: more than threads, not a multiple of any thread count (the correspondence uses fewer rows)"""
     cases = []
-    nout = 37                      # more output rows than threads, not a multiple of any thread count
-    for dn, dt in DECIM_DT:
+    for dn, dt in dts:
         for fac in DECIM_1D:
             if tier == "quick" and dn == "u2" and fac not in (49, 103):
                 continue
             hi = min(200, 256 - fac)
             v = _mean_exact(nprng, nout, fac, hi)
-            for r in range(12):    # some constant bins: the mean of `fac` copies of k
+            for r in range(min(12, nout - 2)):    # some constant bins: the mean of `fac` copies of k
                 v[r, :] = r + 1
             arr = np.concatenate([v.ravel(), nprng.integers(0, 50, 3)]).astype(dt)
             cases.append(Case("downsample_1d_mean_parallel", "downsample_1d_mean", dn, (arr.size, fac),
@@ -290,7 +291,7 @@ def decimation_exact_cases(nprng, tier):
             n1, n2 = nout, 3
             d1, d2 = n1 * f1 + (f1 > 1), n2 * f2 + (f2 > 1)
             a2 = _mean_exact_2d(nprng, d1, d2, f1, f2, min(200, 256 - f1 * f2))
-            for r in range(4):
+            for r in range(min(4, nout - 2)):
                 for c in range(n2):
                     a2[r * f1:(r + 1) * f1, c * f2:(c + 1) * f2] = 1 + r * n2 + c
             a2 = a2.astype(dt)
@@ -698,6 +699,39 @@ def corr_cases(K, nprng, rng, n_per):
             a = f"Z.div {C} {rest.size} {n1}"
             out.append((name, chk(name, f"{name}_pre {a}", f"{name}_threads {a}", mem([(0, rest), (1, m_before)]), 1, 7 * C, m_after, C, rest.shape[0] + 16),
                         {"C": C, "chunk": [n1, Nm]}))
+    # the decimators on the uint16 cases of the sweep (every bin size of DECIM_1D / DECIM_2D, 6 output rows): the generated threads
+    # (index order and a random interleaving) and the functional kernel of the Python definition, with exact integer division,
+    # against what the COMPILED parallel kernel returns under some thread count and chunk size (an integer dtype keeps a quotient
+    # that is one ulp low: a kernel that does not divide like its definition disagrees with the model here)
+    import numba
+    saved = numba.get_num_threads()
+    try:
+        for cs in decimation_exact_cases(nprng, "thorough", nout=6, dts=(("u2", np.uint16),)):
+            arr = cs.mk()[0]
+            nth, ch = int(nprng.integers(2, saved + 1)) if saved > 1 else 1, int(nprng.choice(CHUNKS))
+            numba.set_num_threads(nth)
+            numba.set_parallel_chunksize(ch)
+            try:
+                o = cs.call(getattr(K, cs.kernel), cs.mk())
+            finally:
+                numba.set_parallel_chunksize(0)
+            if o.dtype != np.uint16:
+                out.append((cs.kernel + "[u2]", "false", {"shape": list(cs.shape), "returned_dtype": str(o.dtype)}))
+                continue
+            desc = {"dtype": "u2", "shape": list(cs.shape), "threads": nth, "chunk": ch, "against": "compiled kernel"}
+            if cs.kernel == "downsample_1d_mean_parallel":
+                n, fac = cs.shape
+                a = f"Z.div {n} {fac}"
+                out.append((cs.kernel + "[u2]", chk("ds1", f"downsample_1d_mean_parallel_pre {a}", f"downsample_1d_mean_parallel_threads {a}", mem([(0, arr)]), 1, o.size, o,
+                                                    n // fac, fac + 1, f"downsample_1d_mean_run Z.div {n} zeros (of_list {zl(arr)}) {fac}"), desc))
+            else:
+                d1, d2, f1, f2 = cs.shape
+                a = f"Z.div {f1} {f2} {d1} {d2}"
+                out.append((cs.kernel + "[u2]", chk("ds2", f"downsample_2d_mean_parallel_pre {a}", f"downsample_2d_mean_parallel_threads {a}", mem([(0, arr)]), 1, o.size, o,
+                                                    d1 // f1, (d2 // f2) * (f1 * f2 + 1),
+                                                    f"downsample_2d_mean_flat_run Z.div zeros (of_list {zl(arr)}) {f1} {f2} {d1} {d2}"), desc))
+    finally:
+        numba.set_num_threads(saved)
     return out
 
 
@@ -877,7 +911,8 @@ def run(R: vlib.Run):
             R.red.append(f"correspondence: evaluated {n} of {len(sh)} cases")
         R.extra_cov["traces_validated_against_impl"] = R.extra_cov.get("traces_validated_against_impl", 0) + n
         for bi in bad[:6]:
-            R.disagree("generated thread programs (sequential run / random interleaving / functional kernel) and .py_func differ",
+            R.disagree("generated thread programs (sequential run / random interleaving / functional kernel) and "
+                       + ("the compiled kernel" if sh[bi][2].get("against") == "compiled kernel" else ".py_func") + " differ",
                        {"kernel": sh[bi][0], "case": sh[bi][2]})
     R.extra_cov["correspondence_cases"] = len(cc)
     return R
